@@ -290,7 +290,7 @@ def main():
                  'KNOWN-FINDING on every run). Before generating, each '
                  'check replays the shrunk cases under regressions/<ID>/ '
                  '(repaired findings and caught seeded changes) with plain '
-                 'Python. seeded/ holds 85 independently written breaking '
+                 'Python. seeded/ holds 94 independently written breaking '
                  'changes with the result of our checks on each '
                  '(seeded/README.md); sensitivity/ holds own mutants.',
         'not_applicable': [{'property_id': p, 'reason': NA_REASON}
